@@ -6,11 +6,11 @@ CTX = 300
 PROBE_CTX = 2000
 
 
-def blocking_cfg(name, kinds, leak, wakes, held, buffered=True, hook_under_lock=False):
+def blocking_cfg(name, kinds, leak, wakes, held, buffered=True, hook_under_lock=False, wake_under_lock=True):
     b = lambda x: "TRUE" if x else "FALSE"
     with open(os.path.join(SPEC, name), "w") as f:
-        f.write("SPECIFICATION Spec\nCONSTANTS\n  Kinds <- %s\n  LeakRLock = %s\n  CloseWaitWakes = %s\n  MuHeldDuringWait = %s\n  ResultChBuffered = %s\n  HookUnderLock = %s\n  Hooks = %s\n  MaxMeta = 2\n"
-                "INVARIANTS NoLockLeak NoOverrun NoStuckHandOver NoHookUnderLock\nPROPERTIES EveryCallReturns\nCHECK_DEADLOCK FALSE\n" % (kinds, b(leak), b(wakes), b(held), b(buffered), b(hook_under_lock), b(kinds == "KindsC")))
+        f.write("SPECIFICATION Spec\nCONSTANTS\n  Kinds <- %s\n  LeakRLock = %s\n  CloseWaitWakes = %s\n  MuHeldDuringWait = %s\n  ResultChBuffered = %s\n  HookUnderLock = %s\n  Hooks = %s\n  WakeUnderLock = %s\n  MaxMeta = 2\n"
+                "INVARIANTS NoLockLeak NoOverrun NoStuckHandOver NoHookUnderLock NoLostWakeup\nPROPERTIES EveryCallReturns\nCHECK_DEADLOCK FALSE\n" % (kinds, b(leak), b(wakes), b(held), b(buffered), b(hook_under_lock), b(kinds == "KindsC"), b(wake_under_lock)))
     return name
 
 
@@ -229,6 +229,12 @@ def run():
     os.remove(os.path.join(SPEC, cfg))
     if r.violated not in ("NoHookUnderLock", "NoOverrun"):
         raise Inconclusive("Blocking model with HookUnderLock = TRUE should violate NoHookUnderLock / NoOverrun, TLC says %s" % (r.violated or r.error or "nothing"))
+    # sensitivity: a bound whose wake-up is broadcast without the condition variable's lock can fire between Close's look and its Wait
+    cfg = blocking_cfg("Blocking_c08_wake.cfg", "KindsC", leak=False, wakes=True, held=False, wake_under_lock=False)
+    r = ctx.l1("Blocking", cfg, workers=8, timeout=600, must_hold=False)
+    os.remove(os.path.join(SPEC, cfg))
+    if r.violated != "NoLostWakeup":
+        raise Inconclusive("Blocking model with WakeUnderLock = FALSE should violate NoLostWakeup, TLC says %s" % (r.violated or r.error or "nothing"))
     if not quick:
         # sanity of the model: the as-coded variants must violate the properties (the defects repaired in /repo)
         for name, kinds in (("A", "KindsA"), ("B", "KindsB")):
